@@ -4,6 +4,8 @@ import (
 	"flag"
 	"fmt"
 	"os"
+
+	"github.com/ricochet1k/termemu"
 )
 
 func main() {
@@ -30,6 +32,13 @@ func main() {
 		genCases(os.Stdout, *prof, *seed, *n, ks, ms)
 	case "run":
 		runCases(os.Stdin, os.Stdout)
+	case "width":
+		for _, a := range os.Args[2:] {
+			var r int
+			fmt.Sscan(a, &r)
+			fmt.Printf("%d %d ", r, termemu.VerifRuneWidth(rune(r)))
+		}
+		fmt.Println()
 	default:
 		fmt.Fprintln(os.Stderr, "unknown command")
 		os.Exit(2)
